@@ -17,6 +17,8 @@ open Drv_tmpl
           tokenizer is in the RAWTEXT / PLAINTEXT state of such an element at the failing place;
      D42  finding_D42 text (static text has a DOCTYPE declaration) AND the tokenizer is inside a DOCTYPE at the
           failing place, or the two skeletons differ only in the name of DOCTYPE tokens;
+     D43  finding_D43 trees (a text node of the template ends inside a tag name) AND, in the placement stream,
+          the offending bytes were consumed as part of a tag name;
      D1   finding_D1 trees (a template called from >= 2 sites whose body changes the context). *)
 
 let trees_of_wire (p : string) : (V.n list * V.node list) list =
@@ -46,17 +48,23 @@ let is_raw_state (st : V.hstate) : bool =
 let is_doctype_state = function V.SDoctype | V.SDoctypeName | V.SDoctypeRest -> true | _ -> false
 
 (* where the failure shows: which tokenizer construct is involved *)
-type where = { script : bool; raw : bool; doctype : bool }
-let nowhere = { script = false; raw = false; doctype = false }
+type where = { script : bool; raw : bool; doctype : bool; tagname : bool }
+let nowhere = { script = false; raw = false; doctype = false; tagname = false }
+(* in the struct stream the failing place is not located: the tag-name finding is left to its classifier *)
 let where_of_states (l : V.hstate list) =
-  { script = List.exists is_script_state l; raw = List.exists is_raw_state l; doctype = List.exists is_doctype_state l }
+  { script = List.exists is_script_state l; raw = List.exists is_raw_state l; doctype = List.exists is_doctype_state l;
+    tagname = true }
 
 let finding_tag ~(text : V.n list) ~(parsed : string) (w : where) : string =
   if w.script && V.finding_D13 text then "\tfinding=D13"
   else if w.raw && V.finding_D41 text then "\tfinding=D41"
   else if w.doctype && V.finding_D42 text then "\tfinding=D42"
-  else if (try V.finding_D1 (trees_of_wire parsed) with _ -> false) then "\tfinding=D1"
-  else ""
+  else begin
+    let trees = try trees_of_wire parsed with _ -> [] in
+    if w.tagname && V.finding_D43 trees then "\tfinding=D43"
+    else if V.finding_D1 trees then "\tfinding=D1"
+    else ""
+  end
 
 let analysis_rejected (outcome : string) : bool =
   outcome = "parseerr" || has_prefix "escape:" outcome || outcome = "incomplete" || outcome = "undefined"
@@ -84,7 +92,7 @@ let () =
         end
         else if ob = "execerr" then begin
           (* a sanitizer refused the hostile value; the inert rendering alone must still be well formed *)
-          if not (V.no_comments a) then fail "comment_token_in_output" nowhere
+          if not (V.no_comments a) then fail "comment_token_in_output" { nowhere with tagname = true }
           else if not (V.ends_in_data a) then fail "output_does_not_end_in_data_state" (where_of_states [final_state a])
           else ok id "+hostile_value_rejected_at_run_time"
         end
@@ -119,6 +127,7 @@ let () =
                         | V.PRawtext n when untracked_raw n -> { nowhere with raw = true }
                         | V.PPlaintext -> { nowhere with raw = true }
                         | V.PDoctype -> { nowhere with doctype = true }
+                        | V.PTagName -> { nowhere with tagname = true }
                         | _ -> nowhere)
                   end
               done) spans;
